@@ -59,8 +59,8 @@ def tokens_for(n, parens, pct=(), ops=None, allowed='+-*/^'):
 
 def jobs(tier, seed, report):
     nmax = 4 if tier == 'quick' else 5
-    report.bounds = {'operands': f'2..{nmax} literals, every operator slot symbolic over + - * / ^', 'parentheses': 'every set of non-crossing groups with nesting <= 2 for 2..3 operands (thorough: ..4); a seeded sample of 6 shapes for 4 operands (thorough: 12 shapes for 5)',
-                     'literal_values': 'unbounded symbolic rationals (integer part unbounded)', 'exponents': 'integer literals in [-3,3] (2 operands..3), [-2,2] (4+ operands); groups in exponent position: integers in [-2,2]',
+    report.bounds = {'operands': f'2..{nmax} literals, every operator slot symbolic over + - * / ^', 'parentheses': 'every set of non-crossing groups with nesting <= 2 for 2..3 operands (thorough: ..4); a seeded sample of 6 shapes for 4 operands (thorough: 4 shapes for 5, exponents in [-1,1] there)',
+                     'literal_values': 'unbounded symbolic rationals (integer part unbounded)', 'exponents': 'integer literals in [-3,3] (2 operands..3), [-2,2] (4 operands), [-1,1] (5 operands, thorough only); groups in exponent position: integers in [-2,2]',
                      'percent': 'each single literal, and all literals, of the flat shapes', 'profiles': 'dev and release MIR'}
     report.outside = ['more operands / deeper nesting', 'non-integer exponents (refused by the code; checked in C04)', 'digits of the literals (C07)', 'sin/cos']
     report.assumptions = ['BigRational exact (SMT Real, nonlinear)', 'str::parse::<Rational> on a literal span returns the value it spells (proved separately by C07)', 'syntree builder/tree model (differentially tested against the crate)']
@@ -77,7 +77,7 @@ def jobs(tier, seed, report):
                 if n == 4: rest = rest[:6 if prof == 'dev' else 0]
                 if prof == 'release' and n == 3: rest = rest[:2]
             else:
-                if n == 5: rest = rest[:12 if prof == 'dev' else 0]
+                if n == 5: rest = rest[:4 if prof == 'dev' else 0]
                 if prof == 'release' and n == 4: rest = rest[:8]
             for si, ps in enumerate([flat] + rest):
                 js.append({'name': f'{prof}-n{n}-p{si}', 'profile': prof, 'n': n, 'parens': ps, 'pct': ()})
@@ -94,7 +94,7 @@ def run_job(job, res, prefixes, budget, deadline):
     I = harness.interp_for(job['profile'], {'pow_bound': 40})
     n = job['n']
     tpl = el.Template(tokens_for(n, job['parens'], job['pct'], job.get('ops')), name=job['name'])
-    eb = 3 if n <= 3 else 2
+    eb = 3 if n <= 3 else (2 if n == 4 else 1)      # exponent bound per operand count
     def entry(I):
         s, info = el.build(I, tpl, exp_bound=eb)
         I.path_state['s'] = s; I.path_state['info'] = info
